@@ -54,6 +54,16 @@ Fixpoint tr (q : VS.query) : option q0 :=
       | Some s, Some i, Some u => Some (Z0Reduce s (name_of x) i u)
       | _, _, _ => None
       end
+  | VS.QForeach src x init upd None =>
+      match tr src, tr init, tr upd with
+      | Some s, Some i, Some u => Some (Z0Foreach s (name_of x) i u None)
+      | _, _, _ => None
+      end
+  | VS.QForeach src x init upd (Some e) =>
+      match tr src, tr init, tr upd, tr e with
+      | Some s, Some i, Some u, Some e => Some (Z0Foreach s (name_of x) i u (Some e))
+      | _, _, _, _ => None
+      end
   | _ => None
   end.
 
@@ -164,6 +174,10 @@ Proof.
     + destruct (tr q) eqn:E1; try discriminate. cbn in H. injection H as <-. cbn. split; eauto.
   - destruct (tr q) eqn:E1; try discriminate. cbn in H. injection H as <-. cbn. eauto.
   - destruct (tr q1) eqn:E1, (tr q2) eqn:E2, (tr q3) eqn:E3; try discriminate. injection H as <-. cbn. repeat split; eauto.
+  - destruct ext as [e|].
+    + destruct (tr q1) eqn:E1, (tr q2) eqn:E2, (tr q3) eqn:E3; try discriminate. destruct (tr e) eqn:E4; try discriminate.
+      injection H as <-. cbn. repeat split; eauto.
+    + destruct (tr q1) eqn:E1, (tr q2) eqn:E2, (tr q3) eqn:E3; try discriminate. injection H as <-. cbn. repeat split; eauto.
   - destruct (tr q1) eqn:E1, (tr q2) eqn:E2; try discriminate. injection H as <-. cbn. repeat split; eauto.
   - injection H as <-. cbn [ok0]. split; [reflexivity|apply name_of_not_env].
   - destruct f; injection H as <-; exact I.
@@ -354,6 +368,93 @@ Lemma den_reduce_eq nt src x init upd rho v :
   VD.bind (VD.den nt init rho v) (red_v (VD.den nt src rho v) (fun w acc => VD.den nt upd ((x, w) :: rho) acc)).
 Proof. reflexivity. Qed.
 
+(* foreach *)
+Lemma R_skip why r' : R ([], Some (XSkip why)) r'.
+Proof. right. exists why, [], (fst r'). auto. Qed.
+
+Lemma R_rseq' a a' b b' : R a a' -> (snd a = None -> R b b') -> R (rseq a b) (VD.seq a' b').
+Proof.
+  intros Ha Hb. destruct (snd a) as [x|] eqn:E.
+  - replace (rseq a b) with (rseq a ([], Some (XSkip []))) by (destruct a as [ws [y|]]; [reflexivity|discriminate]).
+    apply R_rseq; [exact Ha|apply R_skip].
+  - apply R_rseq; [exact Ha|apply Hb; reflexivity].
+Qed.
+
+Lemma seq_assoc a b c : VD.seq (VD.seq a b) c = VD.seq a (VD.seq b c).
+Proof.
+  destruct a as [wa [xa|]]; [reflexivity|]. destruct b as [wb [xb|]]; cbn [VD.seq fst snd]; [reflexivity|].
+  rewrite app_assoc. reflexivity.
+Qed.
+
+Lemma foreach_upd_spec ext us acc :
+  fst (VD.foreach_upd ext us acc) = VD.bind_list us ext /\
+  (snd (VD.bind_list us ext) = None -> snd (VD.foreach_upd ext us acc) = last us acc).
+Proof.
+  revert acc. induction us as [|u r IH]; intros acc; cbn [VD.foreach_upd VD.bind_list]; [split; reflexivity|].
+  destruct (ext u) as [os [x|]]; cbn [VD.seq fst snd].
+  - split; [reflexivity|]. intros E; discriminate.
+  - destruct (IH u) as [E1 E2]. destruct (VD.foreach_upd ext r u) as [[os' x] acc']. cbn [fst snd] in *.
+    rewrite <- E1. cbn [fst snd]. split; [reflexivity|]. intros E. rewrite last_cons. apply E2. rewrite <- E1. exact E.
+Qed.
+
+Lemma foreach_fold_cons upd ext w r acc :
+  VD.foreach_fold upd ext (w :: r) acc =
+  VD.seq (VD.bind (upd w acc) (ext w)) (VD.foreach_fold upd ext r (last (fst (upd w acc)) acc)).
+Proof.
+  cbn [VD.foreach_fold]. unfold VD.bind. destruct (upd w acc) as [us ux]. cbn [fst snd].
+  destruct (foreach_upd_spec (ext w) us acc) as [E1 E2].
+  destruct (VD.foreach_upd (ext w) us acc) as [[os x] acc']. cbn [fst snd] in *. rewrite <- E1.
+  destruct x as [x|]; [reflexivity|]. destruct ux as [x|]; [reflexivity|].
+  cbn [VD.seq]. rewrite (E2 (f_equal snd (eq_sym E1))). reflexivity.
+Qed.
+
+Lemma rbind_none r f : snd (rbind r f) = None -> snd r = None.
+Proof. unfold rbind. destruct (rbind_list (fst r) f) as [os [x|]]; cbn [snd]; [discriminate|auto]. Qed.
+
+Lemma R_foreach_fold upd upd' ext ext' tail post sx' :
+  (forall w acc, R (upd (emb_v w) (emb_v acc)) (upd' w acc)) ->
+  (forall w u, R (ext (emb_v w) (emb_v u)) (ext' w u)) ->
+  (forall acc, R tail (VD.seq (VD.foreach_fold upd' ext' post acc) ([], sx'))) ->
+  forall pre acc, R (rseq (foreach_fold0 upd ext (map emb_v pre) (emb_v acc)) tail)
+                    (VD.seq (VD.foreach_fold upd' ext' (pre ++ post) acc) ([], sx')).
+Proof.
+  intros Hu He Ht. induction pre as [|w r IH]; intros acc.
+  - cbn [map app foreach_fold0 rseq fst snd]. destruct tail as [tw tx]. exact (Ht acc).
+  - cbn [map app]. rewrite foreach_fold0_cons, foreach_fold_cons, rseq_assoc, seq_assoc.
+    apply R_rseq'; [apply R_rbind; [apply Hu|apply He]|].
+    intros Hn. unfold item_res in Hn. apply rbind_none in Hn.
+    destruct (Hu w acc) as [[Eu Xu]|(why & pre' & post' & Su & _ & _)]; [|rewrite Su in Hn; discriminate].
+    rewrite Eu, last_emb. apply IH.
+Qed.
+
+Definition fe_s (src : result) (upd ext : jv -> jv -> result) (s0 : jv) : result :=
+  let '(ws, sx) := src in rseq (foreach_fold0 upd ext ws s0) ([], sx).
+Definition fe_v (src : VD.result) (upd ext : VS.jv -> VS.jv -> VD.result) (s0 : VS.jv) : VD.result :=
+  let '(ws, sx) := src in VD.seq (VD.foreach_fold upd ext ws s0) ([], sx).
+
+Lemma R_foreach src src' upd upd' ext ext' : R src src' ->
+  (forall w acc, R (upd (emb_v w) (emb_v acc)) (upd' w acc)) ->
+  (forall w u, R (ext (emb_v w) (emb_v u)) (ext' w u)) ->
+  forall s0, R (fe_s src upd ext (emb_v s0)) (fe_v src' upd' ext' s0).
+Proof.
+  intros Hs Hu He s0. destruct src as [ws sx], src' as [ws' sx']. unfold fe_s, fe_v.
+  destruct Hs as [[Es Xs]|(why & pre & post & Ss & Ps & Es)]; cbn [fst snd] in *.
+  - subst ws. rewrite <- (app_nil_r ws') at 2. apply R_foreach_fold; try assumption.
+    intros acc. cbn [VD.foreach_fold VD.seq app fst snd]. left. split; [reflexivity|exact Xs].
+  - subst ws sx ws'. apply R_foreach_fold; try assumption. intros acc. apply R_skip.
+Qed.
+
+Lemma den0_foreach_eq rs0 src x init upd ext rho v :
+  den0 rs0 (Z0Foreach src x init upd ext) rho v =
+  rbind (den0 rs0 init rho v) (fe_s (den0 rs0 src rho v) (fun w acc => den0 rs0 upd (BVar x (plain w) :: rho) acc)
+     (fun w u => match ext with Some e => den0 rs0 e (BVar x (plain w) :: rho) u | None => ([u], None) end)).
+Proof. reflexivity. Qed.
+Lemma den_foreach_eq nt src x init upd ext rho v :
+  VD.den nt (VS.QForeach src x init upd ext) rho v =
+  VD.bind (VD.den nt init rho v) (fe_v (VD.den nt src rho v) (fun w acc => VD.den nt upd ((x, w) :: rho) acc)
+     (fun w u => match ext with Some e => VD.den nt e ((x, w) :: rho) u | None => ([u], None) end)).
+Proof. reflexivity. Qed.
+
 (* a // b *)
 Definition alt_s (a b : result) : result :=
   let '(ws, x) := a in
@@ -441,6 +542,17 @@ Proof.
   - (* reduce *) destruct (tr q1) eqn:E1, (tr q2) eqn:E2, (tr q3) eqn:E3; try discriminate. injection H as <-.
     rewrite den0_reduce_eq, den_reduce_eq. apply R_rbind; [eapply den_link; eassumption|]. intros s0.
     apply R_reduce; [eapply den_link; eassumption|]. intros w acc. eapply den_link; [eassumption|]. apply renv_bind1. exact Hr.
+  - (* foreach *) destruct ext as [e|].
+    + destruct (tr q1) eqn:E1, (tr q2) eqn:E2, (tr q3) eqn:E3; try discriminate. destruct (tr e) eqn:E4; try discriminate.
+      injection H as <-. rewrite den0_foreach_eq, den_foreach_eq. apply R_rbind; [eapply den_link; eassumption|]. intros s0.
+      apply R_foreach; [eapply den_link; eassumption| |].
+      * intros w acc. eapply den_link; [eassumption|]. apply renv_bind1. exact Hr.
+      * intros w u. eapply den_link; [eassumption|]. apply renv_bind1. exact Hr.
+    + destruct (tr q1) eqn:E1, (tr q2) eqn:E2, (tr q3) eqn:E3; try discriminate.
+      injection H as <-. rewrite den0_foreach_eq, den_foreach_eq. apply R_rbind; [eapply den_link; eassumption|]. intros s0.
+      apply R_foreach; [eapply den_link; eassumption| |].
+      * intros w acc. eapply den_link; [eassumption|]. apply renv_bind1. exact Hr.
+      * intros w u. apply R_single.
   - (* bind *) destruct (tr q1) eqn:E1, (tr q2) eqn:E2; try discriminate. injection H as <-. cbn [den0 VD.den].
     apply R_rbind; [eapply den_link; eassumption|]. intros w. eapply den_link; [eassumption|]. apply renv_bind. exact Hr.
   - (* var *) injection H as <-. cbn [den0 VD.den]. destruct Hr as [Hv Hl]. rewrite Hl.
